@@ -156,6 +156,41 @@ LogCertVerdict(target, r, KC) ==
           ELSE "undecided:enclosure-too-wide"
 
 -----------------------------------------------------------------------------
+(* the package constants: E() = e, Pi() = pi (Machin: 16 atan(1/5) - 4 atan(1/239), alternating series bracket the   *)
+(* limit), Phi() = (1 + sqrt 5)/2 (decided by an integer inequality).  Each must be the correctly rounded value.      *)
+AtanInvBounds(k) ==      \* <<lo, hi>> of atan(1/k) * S : partial sums of an alternating series with decreasing terms
+  LET k2 == k * k
+      term0 == DivModSmall(S, k)[1]                                  \* floor(S / k)
+      \* t_j = S / (k^(2j+1) (2j+1)); computed by repeated division (truncation errors < 1 unit each, 60 terms)
+      step(acc, j) == LET p == DivModSmall(acc[3], k2)[1]            \* floor(S / k^(2j+1))
+                          t == DivModSmall(p, 2 * j + 1)[1]
+                      IN IF j % 2 = 1 THEN <<acc[1], Add(acc[2], t), p>> ELSE <<Add(acc[1], t), acc[2], p>>
+      r == FoldLeft(step, <<term0, << >>, term0>>, [j \in 1..60 |-> j])   \* <<sum of positive terms, sum of negative terms, last power>>
+      plus == r[1]   minus == r[2]
+  IN <<Monus(Sub(plus, minus), FromInt(200)), Add(Sub(plus, minus), FromInt(200))>>     \* truncation slack (<= 2 units per term)
+PiBounds == LET a == AtanInvBounds(5)   b == AtanInvBounds(239)
+            IN <<Sub(MulSmall(a[1], 16), MulSmall(b[2], 4)), Sub(MulSmall(a[2], 16), MulSmall(b[1], 4))>>
+HalfUlpVerdict(lo, hi, r) ==     \* lo <= c*S <= hi (fixed point); r must be the member nearest to c
+  IF r.k # "fin" \/ r.neg \/ IsZero(r) THEN "reject"
+  ELSE LET nm == NormMax(r.c, r.q)
+           two == MulSmall(nm[1], 2)
+       IN \* (2 cn - 1) * 10^qn / 2 <= c <= (2 cn + 1) * 10^qn / 2
+          \* lo, hi are given doubled (2c*S): compare 2c with (2cn -+ 1) * 10^qn
+          IF CmpVC(lo, One, 0 - P, Sub(two, One), nm[2]) >= 0 /\ CmpVC(hi, One, 0 - P, Add(two, One), nm[2]) <= 0 THEN "ok+"
+          ELSE IF CmpVC(hi, One, 0 - P, Sub(two, One), nm[2]) < 0 \/ CmpVC(lo, One, 0 - P, Add(two, One), nm[2]) > 0 THEN "reject"
+          ELSE "undecided:constant"
+ConstVerdict(name, r) ==
+  CASE name = "E" -> LET en == ExpEnclFx(FALSE, S, S) IN HalfUlpVerdict(MulSmall(MulPow10(en.L, en.kk), 2), MulSmall(MulPow10(en.U, en.kk), 2), r)
+    [] name = "Pi" -> HalfUlpVerdict(MulSmall(PiBounds[1], 2), MulSmall(PiBounds[2], 2), r)
+    [] name = "Phi" ->    \* phi nearest to r  <=>  (2 (r -+ u/2) - 1)^2 brackets 5, i.e. with r = cn 10^qn:  ((2cn -+ 1) 10^qn - 1)^2 vs 5
+         IF r.k # "fin" \/ r.neg THEN "reject"
+         ELSE LET nm == NormMax(r.c, r.q)
+                  sc == 0 - nm[2]                                   \* qn < 0: scale by 10^sc
+                  lo == Sub(Sub(MulSmall(nm[1], 2), One), Pow10(sc))      \* (2cn - 1) - 10^sc
+                  hi == Sub(Add(MulSmall(nm[1], 2), One), Pow10(sc))
+                  five == MulSmall(Pow10(2 * sc), 5)
+              IN B2SE(Le(Mul(lo, lo), five) /\ Le(five, Mul(hi, hi)))
+
 EnclVerdict(op, x, r) ==
   LET huge == NumDigits(x.c) + x.q > 6                     \* |x| >= 10^6: far beyond every threshold
       xfx == FxOfDec(x.c, x.q)
